@@ -1124,7 +1124,8 @@ PROPS = {
     },
     "C03": {
         "lean_module": ["Keto.Props.C03", "Keto.Proofs.FactsTieRead"],
-        "theorems": ["Keto.FactsTie.readCallShapes_tie", "Keto.C03_no_allow_pos", "Keto.C03_single_error_never_allowed", "Keto.C03_invert_keeps_error",
+        "theorems": ["Keto.C03_batch_length", "Keto.C03_batch_pointwise", "Keto.C03_batch_entries",
+                     "Keto.FactsTie.readCallShapes_tie", "Keto.C03_no_allow_pos", "Keto.C03_single_error_never_allowed", "Keto.C03_invert_keeps_error",
                      "Keto.C03_and_error_not_member", "Keto.C03_error_never_member", "Keto.C03_checkIsMember_true",
                      "Keto.C03_fault_answer_exact_all", "Keto.C03_fault_independent_all",
                      "Keto.build_err_not_member"],
